@@ -122,7 +122,7 @@ pub fn select_menu(thorough: bool, sqlite_only: bool) -> Vec<SelOp> {
     m.push(SelOp::Order(XS::Col("a"), OrderK::Nulls(false, false)));
     m.push(SelOp::Order(XS::Col("b"), OrderK::Nulls(true, true)));
     // a sort key that carries a bound value, with a NULLS ordering (MySQL writes the key twice)
-    m.push(SelOp::Order(XS::Bin(BOp::Add, bx(XS::Col("b")), bx(XS::Val(V::Int(6001)))), OrderK::Nulls(false, true)));
+    m.push(SelOp::Order(XS::Bin(BOp::Add, bx(XS::Col("b")), bx(XS::Val(V::Int(6001)))), OrderK::Nulls(false, false)));
     m.push(SelOp::Order(XS::Col("s"), OrderK::Field(vec![V::Str("y".into()), V::Str("x".into())])));
     m.push(SelOp::Order(XS::Col("s"), OrderK::Field(vec![V::Str("x\\".into()), V::Str("it's".into())])));
     m.push(SelOp::Limit(3));
